@@ -1011,7 +1011,9 @@ impl AState {
         }
         // ---- C02: exactly one published record ----
         self.out.probe("judged.snapshot_results");
-        let mut props02: Vec<&'static str> = vec!["C02"];
+        // (a blended or never-published record also voids the end-to-end containment promise, C01,
+        // which rests on the consistent snapshot)
+        let mut props02: Vec<&'static str> = vec!["C02", "C01"];
         if kills > 0 {
             props02.push("C04");
         }
@@ -1775,6 +1777,7 @@ pub fn run(cfg: &ACfg, run_seed: u64, replay: Option<Vec<u32>>, trace: bool, san
     let mut out = std::mem::take(&mut s.out);
     if s.reader_access_in_write {
         out.nontrivial.insert("C02");
+        out.nontrivial.insert("C01");
         out.probe("probe.reader_access_between_stores_of_a_write");
     }
     if s.corruptions > 0 || !matches!(cfg.init, Corrupt::None | Corrupt::SetValid { .. }) {
